@@ -2035,7 +2035,11 @@ def _recover_post(ctx):
     return goals
 
 
-def _recover_task_level(ctx):
+def _recover_task_level_c01(ctx):
+    return _recover_task_level(ctx, planned=True)
+
+
+def _recover_task_level(ctx, planned=False):
     """RunTask / StartTask pushed by recovery address a task in the required status for which has_pending_message_for_task
     was evaluated false."""
     I = ctx.I
@@ -2082,6 +2086,16 @@ def _recover_task_level(ctx):
                         ex_first = z3.Exists([kq], z3.And(kq >= 0, kq < n_t, I._select(tid_arr, (sgi, kq)) == tid.t, I._select(tst_arr, (sgi, kq)) == status(I, want),
                                                           z3.ForAll([jq], z3.Implies(z3.And(jq >= 0, jq < kq), I._select(tst_arr, (sgi, jq)) != status(I, want)))))
                         goals.append(("push.StartTask.is-the-first-not-started-task", z3.Implies(g, z3.Or(ex_first, *firsts))))
+                if planned and b.data["cls"] == "StartTask" and child is not None and sframe:
+                    # C01 (same upstream data as an uninterrupted run): the first task may be started directly only in a stage
+                    # that has been planned -- planning is what merges the ancestors' outputs into the stage context.  The one
+                    # durable trace of the plan commit is a task that has moved on (the plan commit carries StartTask for the
+                    # first task, and handling it sets the task RUNNING in the commit that consumes it); a stage whose tasks are
+                    # ALL NOT_STARTED with no StartTask pending was claimed but never planned.
+                    sel = SElem(stages.lid, (sframe[0][3],))
+                    nm = f"push.StartTask.only-for-a-planned-stage"
+                    ctx.extra.setdefault("residual_env", {})[nm] = {"s": sel}
+                    goals.append((nm, z3.Implies(g, ctx.ev("exists(s.tasks, lambda t: t.status != S.NOT_STARTED)", {"s": sel}))))
                 goals.append((f"push.{b.data['cls']}.pending-was-checked-false",
                               z3.Implies(g, z3.Or(*[z3.And(I.ops.eq(q.data["args"][0], tid), z3.Not(q.data["result"])) for q in queries]) if queries else FALSE)))
     return goals
@@ -2109,7 +2123,8 @@ def recovery_unit():
     return Unit(prop="*", name="L2/WorkflowRecovery._recover_workflow", func="stabilize.recovery:WorkflowRecovery._recover_workflow",
                 params=[("workflow", ("obj", "Workflow"))], self_type=selfv, names=STATUS_NAMES, registry=reg, replayable=False,
                 obligations=[Obl("C10/recover/contract", _recover_post, when="any"), Obl("C01/REC/contract", _recover_post, when="any"),
-                             Obl("C10/recover/task-level", _recover_task_level, when="any")], max_paths=20000)
+                             Obl("C10/recover/task-level", _recover_task_level, when="any"),
+                             Obl("C01/REC/task-level", _recover_task_level_c01, when="any", scenario="d10_recovery_skips_planning.py")], max_paths=20000)
 
 
 ALL.append(recovery_unit)
